@@ -115,6 +115,18 @@ DP17Shape(p, c) ==
         ELSE [j \in 1..Len(lv) |-> DPBucketTable(lv[j], N(p), c)])
        \o << Table("HT", N(p), c.hlen, c.hlen) >>
 
+(* ------------------------------ label counters ------------------------------ *)
+(* The CJJ14 schemes derive the label of the c-th entry of a keyword from int_to_bytes(c), a MINIMAL-length big-endian  *)
+(* string: the PRF input grows by a byte when a keyword's counter passes 256 and 65536.  MaxCounter is the largest      *)
+(* counter a profile uses (entries for PiBas, blocks for PiPack, pointer blocks for PiPtr); CounterBytes its length.    *)
+CounterBytes(x) == IF x = 0 THEN 0 ELSE IF x < 256 THEN 1 ELSE IF x < 65536 THEN 2 ELSE 3
+MaxOf(q) == IF q = <<>> THEN 0 ELSE LET m == CHOOSE i \in 1..Len(q) : \A j \in 1..Len(q) : q[i] >= q[j] IN q[m]
+MaxCounter(s, p, c) ==
+    CASE s = "CJJ14.PiBas"  -> MaxOf(p) - 1
+      [] s = "CJJ14.PiPack" -> CeilDiv(MaxOf(p), c.B) - 1
+      [] s = "CJJ14.PiPtr"  -> CeilDiv(CeilDiv(MaxOf(p), c.B), c.b) - 1
+      [] OTHER -> 0
+
 (* ------------------------------ dispatch ------------------------------ *)
 Outcome(s, p, c) ==
     CASE s = "CJJ14.Pi2Lev" -> Pi2LevOutcome(p, c)
